@@ -248,29 +248,28 @@ class NslParser:
         """function_call_expression : ID '(' expression_list_opt ')'"""
         p[0] = ast.CallExpression(types.UnresolvedType(p[1]), p[3])
 
-    def p_binary_expression(self, p):
-        """binary_expression : expression bin_op expression
-        | '(' expression bin_op expression ')'"""
-        if len(p) == 4:
-            p[0] = ast.BinaryExpression(op.StrToOp(p[2]), p[1], p[3])
-        else:
-            p[0] = ast.BinaryExpression(op.StrToOp(p[3]), p[2], p[4])
+    def p_binary_expression_1(self, p):
+        """binary_expression : expression LT expression
+        | expression GT expression
+        | expression PLUS expression
+        | expression MINUS expression
+        | expression TIMES expression
+        | expression DIVIDE expression
+        | expression MOD expression
+        | expression GE expression
+        | expression LE expression
+        | expression EQ expression
+        | expression NE expression
+        | expression LAND expression
+        | expression LOR expression"""
+        # The operator terminals are spelled out in the production: yacc takes
+        # a production's precedence from its terminals, so hiding them behind
+        # a non-terminal would disable the precedence table above.
+        p[0] = ast.BinaryExpression(op.StrToOp(p[2]), p[1], p[3])
 
-    def p_bin_op(self, p):
-        """bin_op : LT
-        | GT
-        | PLUS
-        | MINUS
-        | TIMES
-        | DIVIDE
-        | MOD
-        | GE
-        | LE
-        | EQ
-        | NE
-        | LAND
-        | LOR"""
-        p[0] = p[1]
+    def p_binary_expression_2(self, p):
+        """binary_expression : '(' binary_expression ')'"""
+        p[0] = p[2]
 
     def p_access_expression(self, p):
         """access_expression : array_expression
